@@ -216,6 +216,21 @@ class World(DuoWorld):
         who = ch.pick((("orig", "resp"), ("orig",), ("resp",)), "rekey-who", (3, 1, 1))
         prefix = ch.pick(("com.secret.", "", "com.public."), "rekey-prefix")
         name = ch.pick(("other", "kr", "ko", None), "rekey-key")
+        if ch.flag("rekey-with-a-malformed-key", 0.2):
+            # a roll-over that the library refuses (a hex key instead of base64, a truncated key): the application catches
+            # the error and carries on under the keys it had
+            bad = ch.pick(("00" * 32, "AAAA", "not base64 at all!"), "bad-key")
+            for side_name in who:
+                try:
+                    self.rings[side_name].set_key(prefix, bad)
+                except Exception as e:  # noqa
+                    self.run.probe("set_key-refused:%s" % type(e).__name__)
+                else:
+                    self.run.probe("malformed-key-accepted")
+                    self.model[side_name][prefix] = "malformed:" + bad
+            self.run.fault("rekey-refused")
+            self.run.log("app", "set_key refused", who, prefix)
+            return
         for side_name in who:
             self.rings[side_name].set_key(prefix, self.keys[name] if name else None)
             if name is None:
